@@ -18,7 +18,7 @@ From Verif.Lib Require Import QRound PyNum.
 From Verif.Model Require Import Sampler SamplerMat.
 From Verif.Gen Require Sampler.
 From Verif.Bridge Require Import Sampler.
-From Verif.Proofs Require Import Sampler SamplerMat SamplerSq SamplerGen SamplerReal.
+From Verif.Proofs Require Import Sampler SamplerMat SamplerDet SamplerSq SamplerGen SamplerReal.
 Import ListNotations.
 Open Scope Q_scope.
 
@@ -282,12 +282,34 @@ Print Assumptions C12_square_matrices_sound.
 (* zero determinant is exact whenever the code's early return (|det| < 5e-13 already) was not taken *)
 Theorem C12_square_det_zero_exact : forall sym traceless cplx dim lo hi a M tr,
   (herm_like sym = true -> cplx = true) ->
+  (sym = SAnti -> Nat.odd dim = true) ->
   oracle_ok sym traceless DZero cplx dim a ->
   cabs_lt (a_det a) tiny = false ->
   sq_attempt sym traceless DZero cplx dim lo hi a = Done M tr ->
   ceq (mdet dim M) c0.
 Proof. exact sq_attempt_det_zero_exact. Qed.
 Print Assumptions C12_square_det_zero_exact.
+
+(* the linear algebra behind the branches of make_det_one / make_det_zero, for every dimension: the Laplace
+   determinant is invariant under transposition, hence determinants of hermitian matrices are real, of
+   antihermitian matrices of even dimension real, and antisymmetric matrices of odd dimension are singular *)
+Theorem C12_determinant_transpose : forall n A, ceq (mdet n (mT A)) (mdet n A).
+Proof. exact mdet_transpose. Qed.
+Print Assumptions C12_determinant_transpose.
+
+Theorem C12_hermitian_determinant_real : forall n A, has_symmetry SHerm n A -> creal (mdet n A).
+Proof. exact herm_det_real. Qed.
+Print Assumptions C12_hermitian_determinant_real.
+
+Theorem C12_antihermitian_even_determinant_real : forall n A,
+  has_symmetry SAHerm n A -> Nat.even n = true -> creal (mdet n A).
+Proof. exact antiherm_even_det_real. Qed.
+Print Assumptions C12_antihermitian_even_determinant_real.
+
+Theorem C12_antisymmetric_odd_determinant_zero : forall n A,
+  has_symmetry SAnti n A -> Nat.odd n = true -> ceq (mdet n A) c0.
+Proof. exact antisym_odd_det_zero. Qed.
+Print Assumptions C12_antisymmetric_odd_determinant_zero.
 
 (* the determinant the case checker evaluates (partial results in lowest terms) is the determinant *)
 Theorem C12_reduced_determinant : forall n A, ceq (mdetr n A) (mdet n A).
